@@ -1,6 +1,491 @@
 //! C10: mutations of one entity or of related entities are never split across messages.
-use crate::{explore::Violation, repl::{ReplCell, ReplExec}};
+//! Also hosts the split-delivery stage shared with C12.
+use std::collections::{BTreeMap, BTreeSet};
 
-pub fn check_sizes(_cell: &ReplCell, _x: &mut ReplExec) -> Result<(), Violation> {
+use bevy::prelude::*;
+
+use crate::{
+    cells,
+    check::{CellPlan, Tier, plan},
+    explore::{ChoicePoint, Violation},
+    repl::{Env, Oracles, ReplCell, ReplExec},
+    sim::*,
+};
+
+const MUT: usize = 1;
+
+/// Connected groups of marked entity slots under the `ChildOf` relation (as the server's
+/// synchronized-relationship graph defines them).
+fn groups(x: &ReplExec) -> Vec<BTreeSet<u8>> {
+    let n = x.sim.ents.len() as u8;
+    let mut parent: Vec<u8> = (0..n).collect();
+    fn find(p: &mut Vec<u8>, a: u8) -> u8 {
+        if p[a as usize] != a {
+            let r = find(p, p[a as usize]);
+            p[a as usize] = r;
+        }
+        p[a as usize]
+    }
+    for s in 0..n {
+        if !x.sim.marked(s) {
+            continue;
+        }
+        let e = x.sim.alive(s).unwrap();
+        if let Some(c) = x.sim.server.world().get::<ChildOf>(e) {
+            if let Some(ps) = (0..n).find(|&p| x.sim.alive(p) == Some(c.parent())) {
+                let (a, b) = (find(&mut parent, s), find(&mut parent, ps));
+                parent[a as usize] = b;
+            }
+        }
+    }
+    let mut m: BTreeMap<u8, BTreeSet<u8>> = BTreeMap::new();
+    for s in 0..n {
+        if x.sim.alive(s).is_some() {
+            let r = find(&mut parent, s);
+            m.entry(r).or_default().insert(s);
+        }
+    }
+    m.into_values().collect()
+}
+
+/// Parses the body of a mutate message into `(entity bits, record length)` pairs.
+fn entity_records(track: bool, bytes: &[u8]) -> Option<(usize, Vec<(u64, usize)>)> {
+    let mut pos = 0;
+    read_varint(bytes, &mut pos)?;
+    read_varint(bytes, &mut pos)?;
+    if track {
+        read_varint(bytes, &mut pos)?;
+    }
+    pos += 2;
+    let header = pos;
+    let mut recs = Vec::new();
+    while pos < bytes.len() {
+        let start = pos;
+        let flagged = read_varint(bytes, &mut pos)?;
+        let generation = if flagged & 1 == 1 { read_varint(bytes, &mut pos)? as u32 + 1 } else { 1 };
+        let size = read_varint(bytes, &mut pos)? as usize;
+        pos += size;
+        let bits = ((generation as u64) << 32) | (flagged >> 1);
+        recs.push((bits, pos - start));
+    }
+    if pos != bytes.len() {
+        return None;
+    }
+    Some((header, recs))
+}
+
+/// Size clauses of C10, evaluated on the mutate messages of the last server frame.
+pub fn check_sizes(cell: &ReplCell, x: &mut ReplExec) -> Result<(), Violation> {
+    if !x.sim.last_frame_was_tick {
+        return Ok(());
+    }
+    let frame = x.sim.server_frames;
+    let grp = groups(x);
+    let slot_of = |bits: u64| -> Option<u8> {
+        (0..x.sim.ents.len() as u8).find(|&s| x.sim.ent(s).is_some_and(|e| e.to_bits() == bits))
+    };
+    for c in 0..cell.clients() {
+        let max = x.sim.clients[c].max_size;
+        let msgs: Vec<&WireRec> = x
+            .sim
+            .wire
+            .iter()
+            .rev()
+            .take_while(|w| w.server_frame == frame)
+            .filter(|w| w.client == c && w.channel == MUT)
+            .collect();
+        if msgs.is_empty() {
+            continue;
+        }
+        let mut header = 0usize;
+        let mut chunk_sizes: BTreeMap<usize, usize> = BTreeMap::new(); // group index -> bytes
+        let mut entity_msgs: BTreeMap<u64, BTreeSet<u32>> = BTreeMap::new();
+        let mut total = 0usize;
+        for m in &msgs {
+            let Some((h, recs)) = entity_records(cell.cfg.track, &m.bytes) else {
+                return Err(cell.v("C10", "unparsable-mutate-message", format!("mutate message of {} bytes to c{c} does not parse", m.bytes.len())));
+            };
+            header = header.max(h);
+            for (bits, len) in recs {
+                total += len;
+                entity_msgs.entry(bits).or_default().insert(m.id);
+                let g = slot_of(bits).and_then(|s| grp.iter().position(|g| g.contains(&s)));
+                // entities outside the pool form their own chunk
+                let key = g.unwrap_or(1000 + bits as usize % 1000);
+                *chunk_sizes.entry(key).or_default() += len;
+            }
+        }
+        // one entity is never spread over two messages
+        for (bits, ms) in &entity_msgs {
+            if ms.len() > 1 {
+                return Err(cell.v(
+                    "C10",
+                    "entity-in-two-messages",
+                    format!("tick {}: entity {} appears in {} mutate messages to c{c}", x.sim.last_tick, fmt_bits(*bits), ms.len()),
+                ));
+            }
+        }
+        // related entities travel in the same message
+        if cell.cfg.sync_rel {
+            for g in &grp {
+                let ids: BTreeSet<u32> = g
+                    .iter()
+                    .filter_map(|s| x.sim.ent(*s))
+                    .filter_map(|e| entity_msgs.get(&e.to_bits()))
+                    .flatten()
+                    .copied()
+                    .collect();
+                if ids.len() > 1 {
+                    return Err(cell
+                        .v(
+                            "C10",
+                            "group-in-two-messages",
+                            format!(
+                                "tick {}: the related entities {:?} are spread over {} mutate messages to c{c}",
+                                x.sim.last_tick,
+                                g.iter().map(|s| format!("e{}", s + 1)).collect::<Vec<_>>(),
+                                ids.len()
+                            ),
+                        )
+                        .feat("kind:group"));
+                }
+            }
+        }
+        let all_chunks_fit = chunk_sizes.values().all(|&s| header + s <= max);
+        if all_chunks_fit {
+            for m in &msgs {
+                if m.bytes.len() > max {
+                    return Err(cell
+                        .v(
+                            "C10",
+                            "message-too-large",
+                            format!(
+                                "tick {}: every entity / group fits into {max} bytes (header {header}, chunks {:?}) but a mutate message of {} bytes was sent to c{c}",
+                                x.sim.last_tick,
+                                chunk_sizes.values().collect::<Vec<_>>(),
+                                m.bytes.len()
+                            ),
+                        )
+                        .feat("kind:size"));
+                }
+            }
+        }
+        // With tracking the library reserves the maximum size of the message counter.
+        let reserve = if cell.cfg.track { 9 } else { 0 };
+        if header + reserve + total <= max && msgs.len() > 1 {
+            return Err(cell
+                .v(
+                    "C10",
+                    "needless-split",
+                    format!(
+                        "tick {}: header {header} + {total} bytes of mutations fit into {max} bytes but {} mutate messages were sent to c{c}",
+                        x.sim.last_tick,
+                        msgs.len()
+                    ),
+                )
+                .feat("kind:count"));
+        }
+    }
     Ok(())
 }
+
+// -- split-delivery stage ---------------------------------------------------------------------
+
+/// Mutates every continuously replicated component of every live marked entity, ticks, and
+/// records the mutate messages of that tick (for client 0).
+pub fn split_prepare(cell: &ReplCell, x: &mut ReplExec) -> Result<(), Violation> {
+    // flush everything that is still in flight so that only the final tick's messages remain
+    cell.lockstep_round(x, true)?;
+    cell.lockstep_round(x, true)?;
+    x.split_before.clear();
+    x.split_versions.clear();
+    let mut line = String::from("final stage: mutate");
+    for slot in 0..x.sim.ents.len() as u8 {
+        if !x.sim.marked(slot) {
+            continue;
+        }
+        for (tag, op) in [(TA, Op::Mut(slot, TA)), (TB, Op::Mut(slot, TB))] {
+            if x.sim.enabled(op) {
+                x.sim.apply_op(op);
+                x.split_versions.insert((slot + 1, tag), x.sim.ver);
+                line.push_str(&format!(" {}(e{})", ctag_name(tag), slot + 1));
+            }
+        }
+        if x.sim.alive(slot).is_some_and(|e| x.sim.server.world().entity(e).contains::<Big>()) {
+            let len = x.sim.server.world().get::<Big>(x.sim.alive(slot).unwrap()).unwrap().0.len() as u16;
+            x.sim.apply_op(Op::MutBig(slot, len));
+            x.split_versions.insert((slot + 1, TBIG), x.sim.ver);
+            line.push_str(&format!(" Big(e{})", slot + 1));
+        }
+    }
+    x.sim.note(line);
+    for c in 0..cell.clients() {
+        x.sim.deliver_to_server(c, 0, &Sel::All);
+    }
+    x.sim.server_frame(true).map_err(|v| cell.own(v))?;
+    if cell.oracles.c10 {
+        check_sizes(cell, x)?;
+    }
+    x.split_tick = x.sim.last_tick;
+    x.split_msgs = x.sim.clients[0].s2c[MUT].iter().map(|m| m.id).collect();
+    let sizes: Vec<usize> = x.sim.clients[0].s2c[MUT].iter().map(|m| m.bytes.len()).collect();
+    x.sim.note(format!("    tick {}: {} mutate message(s) {:?} bytes", x.split_tick, sizes.len(), sizes));
+    Ok(())
+}
+
+fn ordered_subsets(k: usize) -> Vec<Vec<usize>> {
+    // default first: everything in sending order; then every other ordered subset (orders only for k <= 3)
+    let mut out: Vec<Vec<usize>> = vec![(0..k).collect()];
+    for mask in 0..(1u32 << k) {
+        let set: Vec<usize> = (0..k).filter(|i| mask & (1 << i) != 0).collect();
+        let mut perms: Vec<Vec<usize>> = Vec::new();
+        if k <= 3 {
+            permute(&set, &mut vec![], &mut perms);
+        } else {
+            perms.push(set.clone());
+        }
+        for p in perms {
+            if !out.contains(&p) {
+                out.push(p);
+            }
+        }
+    }
+    out
+}
+
+fn permute(rest: &[usize], cur: &mut Vec<usize>, out: &mut Vec<Vec<usize>>) {
+    if rest.is_empty() {
+        out.push(cur.clone());
+        return;
+    }
+    for i in 0..rest.len() {
+        let mut r = rest.to_vec();
+        let v = r.remove(i);
+        cur.push(v);
+        permute(&r, cur, out);
+        cur.pop();
+    }
+}
+
+pub fn split_choice(_cell: &ReplCell, x: &mut ReplExec) -> ChoicePoint {
+    let k = x.split_msgs.len().min(5);
+    let alts = ordered_subsets(k)
+        .into_iter()
+        .map(|s| format!("deliver {:?} first", s))
+        .collect();
+    // the subset is the property's own quantifier, not an environment deviation
+    ChoicePoint::history("split", alts)
+}
+
+fn seen_ticks(x: &ReplExec, c: usize) -> Vec<u32> {
+    x.sim.clients[c]
+        .app
+        .world()
+        .get_resource::<MutateTicksSeen>()
+        .map(|s| s.0.clone())
+        .unwrap_or_default()
+}
+
+pub fn split_apply(cell: &ReplCell, x: &mut ReplExec, alt: usize) -> Result<(), Violation> {
+    let k = x.split_msgs.len().min(5);
+    let subset = ordered_subsets(k)[alt].clone();
+    let t = x.split_tick;
+    x.sim.note(format!("  client c0: mutate messages {:?} of {} first", subset, x.split_msgs.len()));
+    let fired_before = seen_ticks(x, 0).iter().filter(|&&s| s == t).count();
+    x.sim.deliver_to_client(0, 0, &Sel::All);
+    x.sim.deliver_to_client(0, MUT, &Sel::Indices(subset.clone()));
+    x.mut_msgs_delivered += subset.len() as u32;
+    x.sim.client_frame(0).map_err(|v| cell.own(v))?;
+    let view = x.sim.client_view(0);
+    x.sim.note(format!("    view {}", view.show()));
+    cell.check_client(x, 0)?;
+
+    if cell.oracles.c10 {
+        // which entities were brought to the final tick?
+        let mut state: BTreeMap<u8, (usize, usize)> = BTreeMap::new(); // slot -> (updated comps, stale comps)
+        for (&(etag, ctag), &ver) in &x.split_versions {
+            let slot = etag - 1;
+            let Some(e) = x.sim.alive(slot) else { continue };
+            let Some(ce) = view.ents.get(&e.to_bits()) else { continue };
+            let updated = match ce.comps.get(&ctag) {
+                Some(CV::Bytes(b)) => b.get(3) == Some(&ver),
+                _ => false,
+            };
+            let s = state.entry(slot).or_insert((0, 0));
+            if updated {
+                s.0 += 1;
+            } else {
+                s.1 += 1;
+            }
+        }
+        for (slot, (u, s)) in &state {
+            if *u > 0 && *s > 0 {
+                return Err(cell
+                    .v(
+                        "C10",
+                        "entity-partially-updated",
+                        format!(
+                            "after delivering mutate messages {subset:?} of tick {t}, e{} has {u} component(s) of that tick and {s} older one(s)",
+                            slot + 1
+                        ),
+                    )
+                    .feat("kind:entity"));
+            }
+        }
+        if cell.cfg.sync_rel {
+            for g in groups(x) {
+                let members: Vec<(u8, bool)> = g
+                    .iter()
+                    .filter_map(|s| state.get(s).map(|(u, _)| (*s, *u > 0)))
+                    .collect();
+                if members.iter().any(|m| m.1) && members.iter().any(|m| !m.1) {
+                    return Err(cell
+                        .v(
+                            "C10",
+                            "group-partially-updated",
+                            format!(
+                                "after delivering mutate messages {subset:?} of tick {t}, the related entities {:?} are not updated together",
+                                members.iter().map(|(s, u)| format!("e{}:{}", s + 1, if *u { "new" } else { "old" })).collect::<Vec<_>>()
+                            ),
+                        )
+                        .feat("kind:group"));
+                }
+            }
+        }
+    }
+    if cell.oracles.c12 {
+        let fired = seen_ticks(x, 0).iter().filter(|&&s| s == t).count() - fired_before;
+        let want = if subset.len() == x.split_msgs.len() && !x.split_msgs.is_empty() { 1 } else { 0 };
+        if fired != want {
+            return Err(cell.v(
+                "C12",
+                "mutate-tick-notification",
+                format!(
+                    "tick {t} has {} mutate message(s); after {} of them were applied MutateTickReceived fired {fired} time(s), expected {want}",
+                    x.split_msgs.len(),
+                    subset.len()
+                ),
+            ));
+        }
+        check_tracker(cell, x, t, want == 1)?;
+    }
+    // the rest arrives one frame later
+    x.sim.deliver_to_client(0, MUT, &Sel::All);
+    x.sim.client_frame(0).map_err(|v| cell.own(v))?;
+    cell.check_client(x, 0)?;
+    if cell.oracles.c12 {
+        let fired = seen_ticks(x, 0).iter().filter(|&&s| s == t).count() - fired_before;
+        let want = if x.split_msgs.is_empty() { 0 } else { 1 };
+        if fired != want {
+            return Err(cell.v(
+                "C12",
+                "mutate-tick-notification",
+                format!(
+                    "tick {t}: all {} mutate message(s) were applied; MutateTickReceived fired {fired} time(s) in total, expected exactly {want}",
+                    x.split_msgs.len()
+                ),
+            ));
+        }
+        check_tracker(cell, x, t, want == 1)?;
+    }
+    Ok(())
+}
+
+/// `ServerMutateTicks::contains(t)` must agree with whether all messages of `t` were applied.
+fn check_tracker(cell: &ReplCell, x: &mut ReplExec, t: u32, complete: bool) -> Result<(), Violation> {
+    use bevy_replicon::{client::server_mutate_ticks::ServerMutateTicks, prelude::RepliconTick};
+    let Some(ticks) = x.sim.clients[0].app.world().get_resource::<ServerMutateTicks>() else {
+        return Ok(());
+    };
+    let got = ticks.contains(RepliconTick::new(t));
+    if got != complete {
+        return Err(cell.v(
+            "C12",
+            "mutate-tick-tracker",
+            format!("ServerMutateTicks::contains({t}) = {got}, but all messages of that tick applied = {complete}"),
+        ));
+    }
+    Ok(())
+}
+
+fn big_cell(name: &str, max: usize, lens: &[u16]) -> ReplCell {
+    let mut c = cells::base(name, "C10");
+    c.cfg.with_big = true;
+    c.cfg.clients = vec![max];
+    c.init = vec![];
+    for (i, &l) in lens.iter().enumerate() {
+        c.init.push(Op::Spawn(i as u8, cells::M_A));
+        c.init.push(Op::InsBig(i as u8, l));
+    }
+    c.alphabet = vec![Op::Nop];
+    c.rounds = 0;
+    c.split_stage = true;
+    c.env = Env::perfect();
+    c.oracles = Oracles { c10: true, c02: true, ..Default::default() };
+    c
+}
+
+pub fn cells(tier: Tier) -> Vec<CellPlan> {
+    let q = tier.quick();
+    let mut v = Vec::new();
+    // Sizes around the packing boundaries for three maximum message sizes.
+    for &max in &[48usize, 100, 1200] {
+        let unit = max as u16;
+        let classes: Vec<u16> = vec![8, unit / 3, unit / 2, unit - 24, unit - 16, unit - 12, unit, unit + 8];
+        let picks: Vec<Vec<u16>> = if q {
+            // pairs and a few triples
+            let mut p = Vec::new();
+            for &a in &classes {
+                for &b in &classes {
+                    p.push(vec![a, b]);
+                }
+            }
+            p.push(vec![unit / 3, unit / 3, unit / 3]);
+            p.push(vec![unit / 2, unit / 2, unit / 2]);
+            p
+        } else {
+            let mut p = Vec::new();
+            for &a in &classes {
+                for &b in &classes {
+                    p.push(vec![a, b]);
+                    for &c in &classes {
+                        p.push(vec![a, b, c]);
+                    }
+                }
+            }
+            p
+        };
+        for (i, lens) in picks.iter().enumerate() {
+            v.push(plan(big_cell(&format!("sizes-{max}-{i}"), max, lens), 0, 0.05));
+        }
+    }
+    // Relationship graphs evolving through insert / replace / remove / despawn / marker toggles.
+    for &max in &[40usize, 1200] {
+        let mut c = cells::base(&format!("graph-{max}"), "C10");
+        c.cfg.with_child = true;
+        c.cfg.sync_rel = true;
+        c.cfg.clients = vec![max];
+        c.init = vec![Op::Spawn(0, cells::AB), Op::Spawn(1, cells::AB), Op::Spawn(2, cells::AB), Op::Spawn(3, cells::AB)];
+        c.alphabet = vec![
+            Op::Nop,
+            Op::SetParent(1, 0),
+            Op::SetParent(2, 1),
+            Op::SetParent(3, 2),
+            Op::SetParent(2, 0),
+            Op::ClearParent(1),
+            Op::ClearParent(2),
+            Op::Unmark(1),
+            Op::Mark(1),
+            Op::Despawn(3),
+        ];
+        c.rounds = if q { 3 } else { 4 };
+        c.tick_choice = false;
+        c.env = Env::perfect();
+        c.split_stage = true;
+        c.oracles = Oracles { c10: true, c02: true, ..Default::default() };
+        v.push(plan(c, 0, 4.0));
+    }
+    v
+}
+
+pub const RULE: &str = "(a) size cells: 2-3 entities with payload sizes around the packing boundaries of three maximum message sizes; (b) graph cells: every sequence of relationship insert / replace / remove, despawn and marker toggles over four entities; in both, everything is mutated in one tick and every subset (every order for <= 3 messages) of that tick's mutate messages is delivered first, the rest one frame later; oracles: per-entity and per-related-group all-or-nothing on the client, one entity / one group per message, no message above the client's maximum when every chunk fits, a single message when everything fits; non-trivial = at least one mutate message delivered";
